@@ -58,11 +58,20 @@ void IMPORTStatement::loadModule(Context& ctx)
   }
   else
   {
-    Value& val = _exp->value(ctx);
-    if (val.isNull())
-      throw ParseError(EXC_PARSE_INV_EXPRESSION);
-    if ((type_id = PluginManager::instance().importModuleByPath(*val.literal())) == 0)
-      throw ParseError(EXC_PARSE_IMPORT_FAILED_S, val.literal()->c_str());
+    try
+    {
+      Value& val = _exp->value(ctx);
+      if (val.isNull())
+        throw ParseError(EXC_PARSE_INV_EXPRESSION);
+      if ((type_id = PluginManager::instance().importModuleByPath(*val.literal())) == 0)
+        throw ParseError(EXC_PARSE_IMPORT_FAILED_S, val.literal()->c_str());
+    }
+    catch (RuntimeError& re)
+    {
+      /* the path is evaluated while compiling: the text is rejected */
+      std::string msg(re.what());
+      throw ParseError(EXC_PARSE_OTHER_S, msg.c_str());
+    }
   }
   const PLUGGED_MODULE& plug = PluginManager::instance().plugged(type_id);
   DBG(DBG_DEBUG, "%s: id=%d name=%s instance=%p dlhandle=%p\n", __FUNCTION__,
